@@ -1012,3 +1012,155 @@ def run_parse_csv(repo, libfuncs, rule='E6l'):
                 problems.append(('cells', f'{desc}: row {ix + 1} is {dict(r.d)!r}; the header {header} and the cells give {dict(zip(header, want))!r}'))
                 break
     return n, problems
+
+
+# ------------------------------------------------------------------------------------------------ JSON
+class JsonInterp(LibInterp):
+    """json.loads and the encode() of a json.JSONEncoder subclass instance are exact host models on concrete JSON values (the subclass's default() is never reached by them)"""
+
+    def _encoder_kwargs(self, inst):
+        cls = inst.args[0]
+        if cls == 'json.JSONEncoder':
+            if inst.args[1]:
+                raise Unrecognised(self.rule, 'json.JSONEncoder constructed with positional arguments', self.mod.rel)
+            return dict(inst.args[2]) if len(inst.args) > 2 else {}
+        for nm in ('value', 'library', 'runtime', 'data'):
+            try:
+                m = self.repo.module(nm)
+            except Exception:
+                continue
+            for c in m.tree.body:
+                if isinstance(c, ast.ClassDef) and c.name == cls:
+                    if not any('JSONEncoder' in norm(b) for b in c.bases):
+                        return None
+                    if any(isinstance(x, ast.FunctionDef) and x.name in ('encode', 'iterencode', '__init__') for x in c.body):
+                        raise Unrecognised(self.rule, f'{cls} overrides encode / iterencode / __init__', m.rel)
+                    if inst.args[1]:
+                        raise Unrecognised(self.rule, f'{cls} constructed with positional arguments', m.rel)
+                    return dict(inst.args[2]) if len(inst.args) > 2 else {}
+        return None
+
+    def method_hook(self, base, m, args, e):
+        if isinstance(base, Sym) and base.kind == 'instance' and m == 'encode' and len(args) == 1:
+            kw = self._encoder_kwargs(base)
+            if kw is not None:
+                import json as _json
+                kw = {k: (tuple(v) if isinstance(v, (list, tuple)) else v) for k, v in kw.items()}
+                v = reify(args[0])
+                if not _is_json_value(v):
+                    raise Unrecognised(self.rule, f'encode() of the non-JSON value {v!r}', self.mod.rel)
+                try:
+                    return _json.JSONEncoder(**kw).encode(v)
+                except (ValueError, TypeError) as exc:
+                    raise RaiseSig(type(exc).__name__, (str(exc),), e)
+        return super().method_hook(base, m, args, e)
+
+    def host_function(self, name, args, e):
+        if name == 'json.loads' and len(args) == 1 and isinstance(args[0], str):
+            import json as _json
+            try:
+                return _abs(_json.loads(args[0]))
+            except ValueError as exc:
+                raise RaiseSig('ValueError', (str(exc)[:60],), e)
+        if name == 'json.JSONEncoder':
+            return Sym('instance', 'json.JSONEncoder', tuple(args), tuple(sorted((getattr(self, '_kwargs', None) or {}).items(), key=lambda kv: kv[0])))
+        if name == 'json.dumps' and args:
+            import json as _json
+            kw = {k: (tuple(v) if isinstance(v, (list, tuple)) else v) for k, v in (getattr(self, '_kwargs', None) or {}).items()}
+            try:
+                return _json.dumps(reify(args[0]), **kw)
+            except (ValueError, TypeError) as exc:
+                raise RaiseSig(type(exc).__name__, (str(exc),), e)
+        return super().host_function(name, args, e)
+
+
+def _is_json_value(v):
+    if v is None or isinstance(v, (bool, int, float, str)):
+        return True
+    if isinstance(v, list):
+        return all(_is_json_value(x) for x in v)
+    if isinstance(v, dict):
+        return all(isinstance(k, str) and _is_json_value(x) for k, x in v.items())
+    return False
+
+
+def json_samples(tier='quick'):
+    strings = ['', 'a', '1.0', '1.0,', 'x.0]', '.0}', '0.0 ', 'a\n', '\n', 'a\nb', 'tab\there', 'q"uote', 'back\\slash', 'end\\', '"', '\\"', '\\\\', '1.0,\n', '1.0,\\', ',]', ',}', ', ]', 'a,]b',
+               '/', '</script>', '\x00\x1f', '\x7f', 'é', '\u2028', '\U0001F600', ' ', '{"a":1.0}', '[1.0, 2.0]', 'C:\\tmp\\']
+    if tier == 'thorough':
+        import itertools as _it
+        strings += [''.join(p) for n in (2, 3) for p in _it.product('a.0,]}"\\\n', repeat=n)][::7]
+    numbers = [0, 1, -1, 1.0, -1.0, 10.0, 100.0, 1.5, -2.25, 0.1, 1e20, 1.5e20, 1e-7, 1e21, 123456789.0, 1e15]
+    vals = [None, True, False] + numbers + strings
+    vals += [[], {}, [1.0], [1.0, 2.5, 'a', None, True], {'a': 1.0}, {'b': 1, 'a': 2}, {'b': {'d': 1.0, 'c': [2.0, {'z': 0, 'y': 1}]}, 'a': [1.0, [2.0, [3.0]]]},
+             ['1.0', 1.0, '1.0'], {'1.0': 1.0, 'k.0]': [10.0]}, [[], {}, [[]], {'a': {}}], {',]': 1, ']': 2}, {'a\n': 'b\n'}, ['C:\\tmp\\', 3.0, 'x'], {'p': 'C:\\', 'size': 3.0, 'q': 's'},
+             [1e20, 1.0, '1e20'], {'': ''}, ['end\\', 1.0, 'next'], ['1.0,\n', 2.0]]
+    vals += [[s_] for s_ in strings[:12]] + [{s_: s_} for s_ in strings[:12]]
+    return vals
+
+
+def run_json_roundtrip(repo, libfuncs, tier='quick', rule='E6l'):
+    """jsonStringify (no indent, indent 2 spelled int, indent 3 spelled float) and jsonParse evaluated on concrete JSON values -> (n, problems [(kind, message)])"""
+    import json as _json
+    import re as _re
+    st, pa = libfuncs.get('jsonStringify'), libfuncs.get('jsonParse')
+    if st is None or pa is None:
+        raise Unrecognised(rule, 'jsonStringify / jsonParse not registered', None)
+    it = JsonInterp(repo, st.mod, rule)
+    problems, n = [], 0
+    number_token = _re.compile(r'"(?:\\.|[^"\\])*"|(-?\d+\.0+)(?![\deE])')
+    texts = {}
+    for v in json_samples(tier):
+        for indent in (None, 2, 3.0):
+            n += 1
+            desc = f'jsonStringify({v!r}' + (f', {indent!r})' if indent is not None else ')')
+            got = it.run(st.func, [AList([_abs(v)] + ([indent] if indent is not None else [])), ADict({})])
+            if got[0] == 'raise':
+                problems.append(('raise', f'{desc} raises {got[1]}{tuple(got[2])!r}'))
+                continue
+            text = got[1]
+            if not isinstance(text, str):
+                raise Unrecognised(rule, f'{desc} evaluates to {text!r}', st.mod.rel)
+            try:
+                pairs_ok = [True]
+
+                def hook(pairs):
+                    keys = [k for k, _v in pairs]
+                    if keys != sorted(keys):
+                        pairs_ok[0] = False
+                    return dict(pairs)
+                back = _json.loads(text, object_pairs_hook=hook)
+            except ValueError:
+                problems.append(('invalid', f'{desc} gives {text!r}, which is not valid JSON'))
+                continue
+            if not _json_equal(back, v):
+                problems.append(('altered', f'{desc} gives {text!r}, which denotes {back!r}'))
+                continue
+            if not pairs_ok[0]:
+                problems.append(('order', f'{desc} gives {text!r}: object keys are not in sorted order'))
+            if any(m.group(1) for m in number_token.finditer(text)):
+                problems.append(('fraction', f'{desc} gives {text!r}: an integral number is written with a fraction'))
+            if indent is None:
+                other = texts.setdefault(text, v)
+                if not _json_equal(other, v) :
+                    problems.append(('collision', f'{desc} and jsonStringify({other!r}) give the same text {text!r}'))
+            # and back through jsonParse
+            n += 1
+            got2 = it.run(pa.func, [AList([text]), ADict({})])
+            if got2[0] == 'raise':
+                problems.append(('parse', f'jsonParse({text!r}) raises {got2[1]}{tuple(got2[2])!r}'))
+            elif not _json_equal(reify(got2[1]), v):
+                problems.append(('parse', f'jsonParse({desc}) gives {reify(got2[1])!r}, not the value'))
+    return n, problems
+
+
+def _json_equal(a, b):
+    if isinstance(a, bool) or isinstance(b, bool) or a is None or b is None:
+        return a is b
+    if isinstance(a, (int, float)) and isinstance(b, (int, float)):
+        return a == b
+    if isinstance(a, list) and isinstance(b, list):
+        return len(a) == len(b) and all(_json_equal(x, y) for x, y in zip(a, b))
+    if isinstance(a, dict) and isinstance(b, dict):
+        return set(a) == set(b) and all(_json_equal(a[k], b[k]) for k in a)
+    return type(a) is type(b) and a == b
